@@ -305,7 +305,7 @@ impl Prop for C06 {
         r
     }
     fn cases(tier: Tier) -> u64 {
-        scale(tier, 24_000, 400_000)
+        scale(tier, 60_000, 400_000)
     }
     fn rule() -> &'static str {
         "a generated history (C05-style incl. clear, rewind and increase_discarded, unified layout; Vec backend for speed, anon and file backends to confirm equivalence) is run once while the verif hook copies memory() before every atomic access / arena zeroing of every operation (sync) or at every operation boundary (unsync); each copy is byte for byte what a MAP_SHARED file would hold if the process were killed there. quick: <= 32 crash points per history (always every step of one free-list-touching operation, the rest hash-sampled by a generated value), thorough: all. For each: write the copy to a fresh file, map_mut with the original options: must open, data_offset <= allocated <= capacity, every range returned before the crash and not released before it (the handle released / allocated by the interrupted operation is exempt) holds its bytes and lies below the cursor; then a generated post-crash history (fill, free, refill, discard_freelist) runs on the reopened arena with those ranges in the shadow map (C01 disjointness = never handed out again) with a termination budget per operation (2000 consecutive atomic accesses that change nothing: a single thread re-reading unchanged words can never leave its loop). Non-trivial = a crash point strictly inside an operation, in a history that used the free list. evaluations counts histories; counters.crash_points_evaluated counts recoveries"
